@@ -6,6 +6,14 @@
 (*                                                                           *)
 (* One record per design:  runs : sequence of                                *)
 (*   grp    group number (runs of one group must give the same text)         *)
+(*   off    audit extension: how many unrelated Signals the interpreter had   *)
+(*          created before building each design (0 in the classic runs): all  *)
+(*          DUIDs of the design are shifted, nothing else changes.  The       *)
+(*          statement's "two runs over the same design" does not depend on    *)
+(*          what else the process created before, so runs of one group that   *)
+(*          differ only in `off` must give the same text, too                 *)
+(*          (OffsetReproducible; judged apart from Reproducible so that the   *)
+(*          classic clause keeps its meaning)                                 *)
 (*   ok     convert() returned (a run that raised is not judged: nothing was *)
 (*          generated)                                                       *)
 (*   decls  <<kind, identifier>> for every declaration found in the emitted  *)
@@ -38,6 +46,22 @@ Kind(r, p)  == IF r.table[p[1]][2] # r.table[p[2]][2] THEN "suffix_lookalike" EL
 DupKinds(r) == {Kind(r, p) : p \in TCollide(r)}
                  \cup (IF \E d \in DupDecl(r) : \A p \in TCollide(r) : r.table[p[1]][1] # d THEN {"declared_twice"} ELSE {})
 
+(* runs of one group that differ only in the DUID offset but not in the text they should give.  *)
+(* Classification of a difference (only names the situation, never decides whether there is one): *)
+(* "suffix_assignment_order" = two objects share a base name (which of them got which _<n> suffix  *)
+(* can have changed) or the namespace handed out different names (x, x, x_1 or reg, reg_1 asked in *)
+(* another order; a memory named x_2 instead of x_1 also renames its x_2_adr0 register);           *)
+(* "other" = the namespace answered the same (same rows, no equal bases), yet the text differs     *)
+UnreproOff(m) == {p \in Runs(m) \X Runs(m) : p[1] < p[2] /\ m.runs[p[1]].grp = m.runs[p[2]].grp
+                                              /\ m.runs[p[1]].off # m.runs[p[2]].off
+                                              /\ m.runs[p[1]].lines # m.runs[p[2]].lines}
+TableSet(r)   == {r.table[i] : i \in DOMAIN r.table}
+SharedBase(r) == \E i, j \in DOMAIN r.table : i < j /\ r.table[i][2] = r.table[j][2] /\ r.table[i][2] # ""
+OffKind(m, p) == LET a == m.runs[p[1]]
+                     b == m.runs[p[2]]
+                 IN IF SharedBase(a) \/ TableSet(a) # TableSet(b)
+                    THEN "suffix_assignment_order" ELSE "other"
+
 Judge(m) ==
   [dup        |-> UNION {DupDecl(m.runs[i]) : i \in Runs(m)},
    tcollide   |-> UNION {{m.runs[i].table[p[1]][1] : p \in TCollide(m.runs[i])} : i \in Runs(m)},
@@ -47,7 +71,10 @@ Judge(m) ==
    undeclared |-> UNION {TableNames(m.runs[i]) \ DeclNames(m.runs[i]) : i \in Runs(m)},
    undeclareduse |-> UNION {{m.runs[i].used[j] : j \in DOMAIN m.runs[i].used} \ DeclNames(m.runs[i]) : i \in Runs(m)},
    unrepro    |-> {p \in Runs(m) \X Runs(m) : p[1] < p[2] /\ m.runs[p[1]].grp = m.runs[p[2]].grp
-                                              /\ m.runs[p[1]].lines # m.runs[p[2]].lines}]
+                                              /\ m.runs[p[1]].off = m.runs[p[2]].off
+                                              /\ m.runs[p[1]].lines # m.runs[p[2]].lines},
+   unreprooff |-> UnreproOff(m),
+   offkinds   |-> {OffKind(m, p) : p \in UnreproOff(m)}]
 
 (* harness obligations: exactly the three header lines were removed, declarations were  *)
 (* found, every design has >= 2 runs per group                                          *)
@@ -68,4 +95,5 @@ DeclNotReserved     == wit.reserved = {}
 EveryObjectDeclared == wit.undeclared = {}    \* every named signal / memory / instance is declared
 UsedIsDeclared      == wit.undeclareduse = {} \* the name a statement uses is the name that was declared
 Reproducible        == wit.unrepro = {}       \* same design, fresh interpreter => same text
+OffsetReproducible  == wit.unreprooff = {}    \* ... also when the process had created other Signals before
 =============================================================================
